@@ -25,7 +25,7 @@ ASSUMPTIONS = [
     "duplicate header / parameter names follow dict semantics (last one wins)",
     "reasons are single tokens (the statement's quantifier), so 'Not Found' is outside",
 ]
-REQUIRED_MONITORS = ["request.model", "response.model", "malformed.rejected"]
+REQUIRED_MONITORS = ["request.model", "response.model", "malformed.rejected", "parse.independent"]
 
 UNRESERVED = (string.ascii_letters + string.digits + "-._~").encode()
 PATH_LIT = UNRESERVED + b"!$&'()*+,=:@;"
@@ -108,6 +108,16 @@ def check_case(case, ctx):
         if diffs:
             ctx.violation("request.model", "; ".join(diffs)[:900], case)
             return
+        if case.get("reparse_after_edit"):
+            # the returned containers belong to the caller: editing them must not influence a later parse of the same bytes
+            ctx.mon("parse.independent")
+            got.params[b"session"] = b"injected"
+            got.params.pop(next(iter(params), b"session"), None)
+            got.headers[b"X-Injected"] = b"1"
+            again = c2.parse_raw_http(wire)
+            if dict(again.params) != params or dict(again.headers) != headers or bytes(again.uri) != m["path"]:
+                ctx.violation("parse.independent", f"second parse of the same bytes after the first result was edited: params {again.params!r} (wire says {params!r}), headers {again.headers!r}", case)
+                return
         nt = bool(m["params"]) or b"\r\n" in m["body"] or b"\0" in m["body"]
         ctx.ok(fp=wire, nontrivial=nt, case=case, classes=(
             f"params:{min(len(m['params']), 3)}", f"headers:{min(len(m['headers']), 3)}",
@@ -139,6 +149,9 @@ def gen_headers(rng):
     n = rng.choice([0, 0, 1, 2, 3, 6])
     out = []
     names = [b"Host", b"User-Agent", b"Cookie", b"Accept", b"X-" + bytes(rng.choice(TOKEN) for _ in range(rng.randrange(1, 8))), b"Content-Type"]
+    if rng.random() < 0.3:
+        # a Content-Length header is just a header: it never decides how much of the body is returned
+        out.append((rng.choice([b"Content-Length", b"content-length"]), rng.choice([b"0", b"1", b"10", b"48", b"99999", b"abc", b"", b"-1"])))
     for _ in range(n):
         k = rng.choice(names)
         r = rng.random()
@@ -250,7 +263,7 @@ def run_shard(shard, ctx):
         r = rng.random()
         if r < 0.6:
             m = gen_request(rng)
-            check_case({"op": "request", "model": m, "wire": serialize_request(m, rng)}, ctx)
+            check_case({"op": "request", "model": m, "wire": serialize_request(m, rng), "reparse_after_edit": rng.random() < 0.3}, ctx)
         elif r < 0.85:
             m = gen_response(rng)
             check_case({"op": "response", "model": m, "wire": serialize_response(m)}, ctx)
